@@ -123,18 +123,21 @@ def array_case(c):
 
 
 def ragged_case(c):
-    t, lens = c
-    k = 0
-    rows = []
-    for L_ in lens:
-        rows.append(", ".join(VALS[t](k + i) for i in range(L_)))
-        k += L_
-    text = H + "%s array A =\n" % t + "".join("    " + x + "\n" for x in rows) + "G(A) | 0\n"
+    """c = (type, lens[, declared shape or None[, position of a template parameter or None]])"""
+    t, lens = c[0], c[1]
+    decl = c[2] if len(c) > 2 else None
+    ppos = c[3] if len(c) > 3 else None
+    vals = [VALS[t](i) for i in range(sum(lens))]
+    if ppos is not None:
+        vals[ppos] = "{w}"
+    it = iter(vals)
+    rows = [", ".join(next(it) for _ in range(n)) for n in lens]
+    text = H + "%s array A%s =\n" % (t, ("[%s]" % ", ".join(map(str, decl))) if decl else "") + "".join("    " + x + "\n" for x in rows) + "G(A) | 0\n"
     p, e = _load(text)
     if e is None:
         tot = sum(lens)
-        key = "C05/ragged-accepted" + ("-divisible" if tot % len(lens) == 0 else "")
-        return (key, "rows of lengths %r silently became %r" % (list(lens), p.variables["A"].tolist()))
+        key = "C05/ragged-accepted" + ("-divisible" if tot % len(lens) == 0 else "") + ("-declared-shape" if decl else "") + ("-with-parameter" if ppos is not None else "")
+        return (key, "rows of lengths %r%s silently became %r" % (list(lens), (" declared %r" % (decl,)) if decl else "", p.variables["A"].tolist()))
     return None
 
 
@@ -412,6 +415,15 @@ def build(ctx):
             for lens in itertools.product((1, 2, 3), repeat=nrows):
                 if len(set(lens)) > 1:
                     cases.append(("ragged", (t, lens)))
+                    # the same with a declared shape: every two-dimensional shape the number of entries fits, the number of rows
+                    # with the longest / shortest row, and a one-dimensional shape; once more with a template parameter among the entries
+                    tot = sum(lens)
+                    decls = {(r, tot // r) for r in range(1, tot + 1) if tot % r == 0} | {(len(lens), max(lens)), (len(lens), min(lens)), (tot,), (max(lens),)}
+                    for decl in sorted(decls):
+                        cases.append(("ragged", (t, lens, decl, None)))
+                        if t == "float":
+                            cases.append(("ragged", (t, lens, decl, tot - 1)))
+                            cases.append(("ragged", (t, lens, decl, 0)))
     return cases
 
 
